@@ -1282,8 +1282,36 @@ def rule_rf1(ctx):
             "lacking an incoming (or an outgoing) edge survive the pruning",
             instance=inst + ":condition")
     else:
-        r.ok("RF1", inst + ":condition", loc(f, cond), ctext[:120],
-             "tests both the outgoing and the incoming view")
+        # a pure emptiness test: nothing is discounted from the cells
+        # (helpers defined inside the function and called by the test are
+        # read as part of it)
+        scope_nodes = [cond.test]
+        called = {dotted(c.func) for c in ast.walk(cond.test)
+                  if isinstance(c, ast.Call)}
+        for n in ast.walk(f.node):
+            if isinstance(n, ast.FunctionDef) and n is not f.node \
+                    and n.name in called:
+                scope_nodes.append(n)
+        discount = None
+        for sn in scope_nodes:
+            for x in ast.walk(sn):
+                if isinstance(x, ast.BinOp) and isinstance(x.op, ast.Sub):
+                    discount = discount or x
+                if isinstance(x, ast.comprehension) and x.ifs:
+                    discount = discount or x.ifs[0]
+        if discount is not None:
+            r.violation(
+                "RF1", f"{f.fq}|discounted", loc(f, cond),
+                dotted(discount)[:120],
+                f"the dead-end test discounts neighbours "
+                f"(`{dotted(discount)[:60]}`): a vertex whose only incoming "
+                "(outgoing) edges are its own loops has an incoming and an "
+                "outgoing edge and lies on a bi-infinite path, but is "
+                "pruned ({0: {'a': 0}} becomes empty)",
+                instance=inst + ":condition")
+        else:
+            r.ok("RF1", inst + ":condition", loc(f, cond), ctext[:120],
+                 "tests both the outgoing and the incoming view")
     whiles = [l for l in loops if isinstance(l, ast.While)]
     if not whiles:
         r.violation(
